@@ -1476,3 +1476,580 @@ Section WfTree.
     apply sforest_whole. exact F.
   Qed.
 End WfTree.
+
+
+(* unfolding equations of the driver (the mutual fixpoint does not refold under cbn once [chk] is instantiated) *)
+Section DriveEq.
+  Variable C : Type.
+  Variable ceqb : C -> C -> bool.
+  Variable chk : bool.
+  Notation handler := (handler C).
+  Lemma drive_dt_call c (h : handler) : drive_dt C ceqb chk (DCall c) h = drive_call C ceqb c h.
+  Proof. reflexivity. Qed.
+  Lemma drive_dt_ap a (h : handler) : drive_dt C ceqb chk (DAp a) h = drive_ap C a h.
+  Proof. reflexivity. Qed.
+  Lemma drive_dt_canon c (h : handler) : drive_dt C ceqb chk (DCanon c) h = drive_canon C ceqb c h.
+  Proof. reflexivity. Qed.
+  Lemma drive_dt_par l r (h : handler) :
+    drive_dt C ceqb chk (DPar l r) h =
+    (do h1 <- meet_par_start C h; do h2 <- drive_dts C ceqb chk l h1; do h3 <- meet_par_subgraph_end C h2 SLeft;
+     do h4 <- drive_dts C ceqb chk r h3; meet_par_subgraph_end C h4 SRight).
+  Proof. reflexivity. Qed.
+  Lemma drive_dt_fold id gs (h : handler) :
+    drive_dt C ceqb chk (DFold id gs) h =
+    (do h1 <- meet_fold_start C h id; do h2 <- drive_gens C ceqb chk id gs h1; meet_fold_end C h2 id).
+  Proof. reflexivity. Qed.
+  Lemma drive_dts_nil (h : handler) : drive_dts C ceqb chk DNil h = Ok h.
+  Proof. reflexivity. Qed.
+  Lemma drive_dts_cons d r (h : handler) :
+    drive_dts C ceqb chk (DCons d r) h = (do h1 <- drive_dt C ceqb chk d h; drive_dts C ceqb chk r h1).
+  Proof. reflexivity. Qed.
+  Lemma drive_gens_nil id (h : handler) : drive_gens C ceqb chk id GNil h = Ok h.
+  Proof. reflexivity. Qed.
+  Lemma drive_gens_cons id v b r (h : handler) :
+    drive_gens C ceqb chk id (GCons v b r) h =
+    (do h1 <- iteration_start C chk h id v; do h2 <- drive_body C ceqb chk id b h1;
+     do h3 <- meet_generation_end C h2 id; drive_gens C ceqb chk id r h3).
+  Proof. reflexivity. Qed.
+  Lemma drive_body_plain id ds (h : handler) : drive_body C ceqb chk id (BPlain ds) h = drive_dts C ceqb chk ds h.
+  Proof. reflexivity. Qed.
+  Lemma drive_body_hole id ds hl after (h : handler) :
+    drive_body C ceqb chk id (BHole ds hl after) h =
+    (do h1 <- drive_dts C ceqb chk ds h; do h2 <- drive_hole C ceqb chk id hl h1; drive_dts C ceqb chk after h2).
+  Proof. reflexivity. Qed.
+  Lemma drive_hole_more id v b back (h : handler) :
+    drive_hole C ceqb chk id (HNextMore v b back) h =
+    (do h1 <- meet_iteration_end C h id; do h2 <- iteration_start C chk h1 id v; do h3 <- drive_body C ceqb chk id b h2;
+     if back then meet_back_iterator C h3 id else Ok h3).
+  Proof. reflexivity. Qed.
+  Lemma drive_hole_end id last (h : handler) :
+    drive_hole C ceqb chk id (HNextEnd last) h =
+    (do h1 <- meet_iteration_end C h id; do h2 <- meet_back_iterator C h1 id; drive_dts C ceqb chk last h2).
+  Proof. reflexivity. Qed.
+  Lemma drive_hole_parl id b r (h : handler) :
+    drive_hole C ceqb chk id (HParL b r) h =
+    (do h1 <- meet_par_start C h; do h2 <- drive_body C ceqb chk id b h1; do h3 <- meet_par_subgraph_end C h2 SLeft;
+     do h4 <- drive_dts C ceqb chk r h3; meet_par_subgraph_end C h4 SRight).
+  Proof. reflexivity. Qed.
+  Lemma drive_hole_parr id l b (h : handler) :
+    drive_hole C ceqb chk id (HParR l b) h =
+    (do h1 <- meet_par_start C h; do h2 <- drive_dts C ceqb chk l h1; do h3 <- meet_par_subgraph_end C h2 SLeft;
+     do h4 <- drive_body C ceqb chk id b h3; meet_par_subgraph_end C h4 SRight).
+  Proof. reflexivity. Qed.
+End DriveEq.
+Ltac drive_unfold :=
+  rewrite ?drive_dt_call, ?drive_dt_ap, ?drive_dt_canon, ?drive_dt_par, ?drive_dt_fold, ?drive_dts_nil, ?drive_dts_cons,
+    ?drive_gens_nil, ?drive_gens_cons, ?drive_body_plain, ?drive_body_hole, ?drive_hole_more, ?drive_hole_end,
+    ?drive_hole_parl, ?drive_hole_parr in *.
+
+(* ===================================================================== *)
+(* Part D: value positions (checked driver) and generations *)
+
+Section WfD.
+  Variable C : Type.
+  Variable ceqb : C -> C -> bool.
+  Notation state := (state C).
+  Notation trace := (list state).
+  Notation handler := (handler C).
+  Notation rt := (rt C).
+  Notation nlen := (nlen C).
+
+  (* ---- the checked driver is the driver ---- *)
+  Lemma iteration_start_chk h id v h' :
+    iteration_start C true h id v = Ok h' ->
+    iteration_start C false h id v = Ok h' /\ is_stream_at C (rt h) (vsel_pos C h v) = true.
+  Proof.
+    unfold iteration_start. cbn [andb]. unfold result_trace. change (k_result C (h_keeper C h)) with (rt h).
+    destruct (is_stream_at C (rt h) (vsel_pos C h v)); cbn [negb]; [auto|discriminate].
+  Qed.
+
+  Theorem drive_chk_drive_all :
+    (forall d h h', drive_dt C ceqb true d h = Ok h' -> drive_dt C ceqb false d h = Ok h') /\
+    (forall ds h h', drive_dts C ceqb true ds h = Ok h' -> drive_dts C ceqb false ds h = Ok h') /\
+    (forall gs id h h', drive_gens C ceqb true id gs h = Ok h' -> drive_gens C ceqb false id gs h = Ok h') /\
+    (forall b id h h', drive_body C ceqb true id b h = Ok h' -> drive_body C ceqb false id b h = Ok h') /\
+    (forall hl id h h', drive_hole C ceqb true id hl h = Ok h' -> drive_hole C ceqb false id hl h = Ok h').
+  Proof.
+    apply drive_mutind; intros; drive_unfold;
+      repeat match goal with
+             | H : bind _ _ = Ok _ |- _ => inv_bind H
+             end;
+      repeat match goal with
+             | IH : forall h h', _ = Ok h' -> _ = Ok h', E : _ = Ok _ |- _ => apply IH in E
+             | IH : forall id h h', _ = Ok h' -> _ = Ok h', E : _ = Ok _ |- _ => apply IH in E
+             | E : iteration_start C true _ _ _ = Ok _ |- _ => apply iteration_start_chk in E; destruct E as [E _]
+             end;
+      unfold bind;
+      repeat match goal with
+             | E : ?x = Ok _ |- context [match ?x with _ => _ end] => rewrite E
+             end; auto.
+  Qed.
+
+  (* ---- an invariant that every API call keeps ---- *)
+  Definition nonstream_at (t : trace) (p : N) : Prop :=
+    exists s, nth_N t p = Some s /\ is_stream_state C s = false.
+  Definition text (t t' : trace) : Prop :=
+    (forall p, is_stream_at C t p = true -> is_stream_at C t' p = true) /\
+    (forall p, nonstream_at t p -> nonstream_at t' p).
+
+  Definition ctor_vp_ok (t : trace) (c : lore_ctor) : Prop :=
+    lc_value_pos c < lc_before_start c /\ is_stream_at C t (lc_value_pos c) = true.
+  Definition fold_vp_ok (t : trace) (f : fold_fsm) : Prop :=
+    nonstream_at t (ff_inserter f) /\
+    Forall (fun x => entry_vp_ok C t x = true) (ff_result f) /\
+    Forall (ctor_vp_ok t) (map cd_ctor (ff_queue f)).
+  Definition Vinv (h : handler) : Prop :=
+    vp_ok C (rt h) /\
+    Forall (fun f => nonstream_at (rt h) (pf_inserter f)) (h_pars C h) /\
+    forall id f, folds_get (h_folds C h) id = Some f -> fold_vp_ok (rt h) f.
+
+  Lemma text_refl t : text t t.
+  Proof. split; auto. Qed.
+  Lemma text_app t s : text t (t ++ s).
+  Proof.
+    split.
+    - intros p. unfold is_stream_at. destruct (nth_N t p) eqn:E; [|discriminate].
+      rewrite nth_N_app_l by (eapply nth_N_some; eauto). now rewrite E.
+    - intros p (x & E & S). exists x. split; [|exact S]. rewrite nth_N_app_l by (eapply nth_N_some; eauto). exact E.
+  Qed.
+  Lemma text_set t p x : nonstream_at t p -> is_stream_state C x = false -> text t (set_nth t (N.to_nat p) x).
+  Proof.
+    intros (s0 & E0 & S0) Sx. split.
+    - intros q. unfold is_stream_at. destruct (N.eq_dec p q) as [->|Ne].
+      + rewrite E0, S0. discriminate.
+      + now rewrite nth_N_set_nth_other.
+    - intros q (s & E & S). destruct (N.eq_dec p q) as [->|Ne].
+      + exists x. split; [|exact Sx]. apply nth_N_set_nth_same. eapply nth_N_some; eauto.
+      + exists s. split; [|exact S]. now rewrite nth_N_set_nth_other.
+  Qed.
+
+  Lemma entry_vp_text t t' x : text t t' -> entry_vp_ok C t x = true -> entry_vp_ok C t' x = true.
+  Proof.
+    intros [M _]. unfold entry_vp_ok. destruct (fl_descs x); [auto|]. intros H. apply andb_prop in H. destruct H as [A B].
+    apply andb_true_intro. split; [exact A|now apply M].
+  Qed.
+  Lemma ctor_vp_text t t' c : text t t' -> ctor_vp_ok t c -> ctor_vp_ok t' c.
+  Proof. intros [M _] [A B]. split; [exact A|now apply M]. Qed.
+  Lemma fold_vp_text t t' f : text t t' -> fold_vp_ok t f -> fold_vp_ok t' f.
+  Proof.
+    intros T (A & B & D). split; [now apply (proj2 T)|]. split.
+    - eapply Forall_impl; [|exact B]. intros x. now apply entry_vp_text.
+    - eapply Forall_impl; [|exact D]. intros c. now apply ctor_vp_text.
+  Qed.
+
+  (* vp_ok after appending states none of which is a fold *)
+  Lemma vp_ok_app t s : vp_ok C t -> Forall (fun x => match x with SFold _ => False | _ => True end) s -> vp_ok C (t ++ s).
+  Proof.
+    intros V F p lore x Hp Hx.
+    destruct (N.lt_ge_cases p (len_N t)) as [L|G].
+    - rewrite nth_N_app_l in Hp by exact L. destruct (V p lore x Hp Hx) as (b & rest & E & Lt & S).
+      exists b, rest. split; [exact E|]. split; [exact Lt|]. now apply (proj1 (text_app t s)).
+    - replace p with (len_N t + (p - len_N t)) in Hp by lia. rewrite nth_N_app_r in Hp.
+      apply nth_N_In in Hp. rewrite Forall_forall in F. apply F in Hp. contradiction.
+  Qed.
+  Lemma vp_ok_set t p x :
+    vp_ok C t -> nonstream_at t p -> is_stream_state C x = false ->
+    (forall lore, x = SFold lore -> Forall (fun e => entry_vp_ok C t e = true) lore) ->
+    vp_ok C (set_nth t (N.to_nat p) x).
+  Proof.
+    intros V NS Sx HF q lore e Hq He.
+    pose proof (text_set t p x NS Sx) as T.
+    destruct (N.eq_dec p q) as [->|Ne].
+    - destruct NS as (s0 & E0 & _). rewrite nth_N_set_nth_same in Hq by (eapply nth_N_some; eauto).
+      inversion Hq. subst x. specialize (HF lore eq_refl). rewrite Forall_forall in HF. apply HF in He.
+      apply (entry_vp_text _ _ _ T) in He. unfold entry_vp_ok in He.
+      destruct (fl_descs e) as [|b rest]; [discriminate|]. apply andb_prop in He. destruct He as [A B].
+      exists b, rest. split; [reflexivity|]. split; [now apply N.ltb_lt|exact B].
+    - rewrite nth_N_set_nth_other in Hq by exact Ne. destruct (V q lore e Hq He) as (b & rest & E & Lt & S).
+      exists b, rest. split; [exact E|]. split; [exact Lt|]. now apply (proj1 T).
+  Qed.
+
+  Lemma Vinv_text_same h h' :
+    Vinv h -> text (rt h) (rt h') -> vp_ok C (rt h') -> h_pars C h' = h_pars C h -> h_folds C h' = h_folds C h -> Vinv h'.
+  Proof.
+    intros (V & P & F) T V' EP EF. split; [exact V'|]. split.
+    - rewrite EP. eapply Forall_impl; [|exact P]. intros f. apply (proj2 T).
+    - intros id f G. rewrite EF in G. eapply fold_vp_text; [exact T|]. eapply F; eauto.
+  Qed.
+
+  Lemma leaf_not_fold (s : trace) :
+    Forall (fun x => is_leaf C x = true) s -> Forall (fun x : state => match x with SFold _ => False | _ => True end) s.
+  Proof. intros F. eapply Forall_impl; [|exact F]. intros x. destruct x; simpl; auto; discriminate. Qed.
+
+  Lemma Vinv_leafstep h h' : leafstep C h h' -> Vinv h -> Vinv h'.
+  Proof.
+    intros [(s & R & L) [EP EF]] I. eapply Vinv_text_same; eauto.
+    - rewrite R. apply text_app.
+    - rewrite R. apply vp_ok_app; [exact (proj1 I)|now apply leaf_not_fold].
+  Qed.
+
+  Lemma placeholder_nonstream (t : trace) : nonstream_at (t ++ [SPar 0 0]) (len_N t).
+  Proof. exists (SPar 0 0). split; [apply nth_N_mid|reflexivity]. Qed.
+
+  Lemma Vinv_par_start h h' : meet_par_start C h = Ok h' -> Vinv h -> Vinv h'.
+  Proof.
+    intros H (V & P & F). apply meet_par_start_spec in H. destruct H as (R & EF & f & EP & I & _).
+    assert (T : text (rt h) (rt h')) by (rewrite R; apply text_app).
+    split; [rewrite R; apply vp_ok_app; [exact V|repeat constructor]|]. split.
+    - rewrite EP. constructor; [rewrite I, R; apply placeholder_nonstream|].
+      eapply Forall_impl; [|exact P]. intros g. apply (proj2 T).
+    - intros id g G. rewrite EF in G. eapply fold_vp_text; [exact T|]. eapply F; eauto.
+  Qed.
+  Lemma Vinv_par_left h h' : meet_par_subgraph_end C h SLeft = Ok h' -> Vinv h -> Vinv h'.
+  Proof.
+    intros H (V & P & F). apply meet_par_left_spec in H.
+    destruct H as (R & EF & f & rest & f' & EP & EP' & _ & I & _).
+    split; [now rewrite R|]. split.
+    - rewrite EP', R. rewrite EP in P. apply Forall_cons_iff in P. destruct P as [NS P']. constructor; [now rewrite I|assumption].
+    - intros id g G. rewrite EF in G. rewrite R. eapply F; eauto.
+  Qed.
+  Lemma Vinv_par_right h h' : meet_par_subgraph_end C h SRight = Ok h' -> Vinv h -> Vinv h'.
+  Proof.
+    intros H (V & P & F). apply meet_par_right_spec in H.
+    destruct H as (EF & f & rest & EP & EP' & _ & _ & R).
+    rewrite EP in P. apply Forall_cons_iff in P. destruct P as [NS P'].
+    assert (T : text (rt h) (rt h')) by (rewrite R; now apply text_set).
+    split; [rewrite R; apply vp_ok_set; auto; intros lore X; discriminate|]. split.
+    - rewrite EP'. eapply Forall_impl; [|exact P']. intros g. apply (proj2 T).
+    - intros id g G. rewrite EF in G. eapply fold_vp_text; [exact T|]. eapply F; eauto.
+  Qed.
+
+  (* a fold FSM replaced by another one (same handler otherwise) *)
+  Lemma Vinv_put h h' id f' :
+    Vinv h -> rt h' = rt h -> h_pars C h' = h_pars C h -> h_folds C h' = folds_put (h_folds C h) id f' ->
+    fold_vp_ok (rt h) f' -> Vinv h'.
+  Proof.
+    intros (V & P & F) R EP EF FV. split; [now rewrite R|]. split; [now rewrite EP, R|].
+    intros i g G. rewrite EF in G. rewrite R. destruct (N.eq_dec i id) as [->|Ne].
+    - rewrite folds_get_put_same in G. inversion G. now subst.
+    - rewrite folds_get_put_other in G by exact Ne. eapply F; eauto.
+  Qed.
+
+  Lemma Vinv_fold_start h id h' : meet_fold_start C h id = Ok h' -> Vinv h -> Vinv h'.
+  Proof.
+    intros H (V & P & F). apply meet_fold_start_spec in H.
+    destruct H as (R & EP & f & EF & I & Q & _ & _ & L).
+    assert (T : text (rt h) (rt h')) by (rewrite R; apply text_app).
+    split; [rewrite R; apply vp_ok_app; [exact V|repeat constructor]|]. split.
+    - rewrite EP. eapply Forall_impl; [|exact P]. intros g. apply (proj2 T).
+    - intros i g G. rewrite EF in G. destruct (N.eq_dec i id) as [->|Ne].
+      + rewrite folds_get_put_same in G. inversion G. subst g. split; [rewrite I, R; apply placeholder_nonstream|].
+        rewrite L, Q. split; constructor.
+      + rewrite folds_get_put_other in G by exact Ne. eapply fold_vp_text; [exact T|]. eapply F; eauto.
+  Qed.
+
+  Lemma Forall_set_nth {A} (P : A -> Prop) l i x : Forall P l -> P x -> Forall P (set_nth l i x).
+  Proof. intros F. revert i. induction F; destruct i; simpl; intros; constructor; auto. Qed.
+  Lemma Forall_nth_error {A} (P : A -> Prop) l i x : Forall P l -> nth_error l i = Some x -> P x.
+  Proof. intros F H. rewrite Forall_forall in F. apply F. eapply nth_error_In; eauto. Qed.
+
+  Lemma Vinv_iteration_start h id v h' : iteration_start C true h id v = Ok h' -> Vinv h -> Vinv h'.
+  Proof.
+    intros H I. apply iteration_start_chk in H. destruct H as [H S]. apply (iteration_start_meet C false) in H.
+    apply meet_iteration_start_spec in H. destruct H as (R & EP & f & f' & G & EF & I1 & L1 & Q1 & _).
+    eapply Vinv_put; eauto. destruct I as (_ & _ & F). destruct (F _ _ G) as (A & B & D).
+    split; [now rewrite I1|]. split; [now rewrite L1|].
+    unfold ctors in Q1. rewrite Q1. apply Forall_app. split; [exact D|]. constructor; [|constructor].
+    split; [|exact S]. cbn. apply nth_N_some with (x := match nth_N (rt h) (vsel_pos C h v) with Some s => s | None => SPar 0 0 end).
+    unfold is_stream_at in S. destruct (nth_N (rt h) (vsel_pos C h v)); [reflexivity|discriminate].
+  Qed.
+  Lemma Vinv_iteration_end h id h' : meet_iteration_end C h id = Ok h' -> Vinv h -> Vinv h'.
+  Proof.
+    intros H I. apply meet_iteration_end_spec in H.
+    destruct H as (R & EP & f & f' & c & G & EF & _ & Hn & Q1 & I1 & L1 & _).
+    eapply Vinv_put; eauto. destruct I as (_ & _ & F). destruct (F _ _ G) as (A & B & D).
+    split; [now rewrite I1|]. split; [now rewrite L1|].
+    unfold ctors in *. rewrite Q1. apply Forall_set_nth; [exact D|].
+    pose proof (Forall_nth_error _ _ _ _ D Hn) as [X Y]. split; [exact X|exact Y].
+  Qed.
+  Lemma ctor_vp_ok_upd t c c' :
+    lc_value_pos c' = lc_value_pos c -> lc_before_start c' = lc_before_start c -> ctor_vp_ok t c -> ctor_vp_ok t c'.
+  Proof. unfold ctor_vp_ok. intros -> ->. auto. Qed.
+  Lemma Vinv_back_iterator h id h' : meet_back_iterator C h id = Ok h' -> Vinv h -> Vinv h'.
+  Proof.
+    intros H I. apply meet_back_iterator_spec in H. cbv zeta in H.
+    destruct H as (R & EP & f & f' & c & G & EF & I1 & L1 & _ & Hn & Rest).
+    eapply Vinv_put; eauto. destruct I as (_ & _ & F). destruct (F _ _ G) as (A & B & D).
+    split; [now rewrite I1|]. split; [now rewrite L1|].
+    unfold ctors in *. pose proof (Forall_nth_error _ _ _ _ D Hn) as Hc.
+    destruct (ff_back_started f).
+    - destruct Rest as (_ & c2 & Hn2 & Q1 & _). rewrite Q1.
+      assert (D1 : Forall (ctor_vp_ok (rt h)) (set_nth (map cd_ctor (ff_queue f)) (N.to_nat (ff_back_pos f - 1)) (ctor_after_end c (nlen h)))).
+      { apply Forall_set_nth; [exact D|]. eapply ctor_vp_ok_upd; [| |exact Hc]; reflexivity. }
+      apply Forall_set_nth; [exact D1|].
+      pose proof (Forall_nth_error _ _ _ _ D1 Hn2) as Hc2. eapply ctor_vp_ok_upd; [| |exact Hc2]; reflexivity.
+    - destruct Rest as (Q1 & _). rewrite Q1. apply Forall_set_nth; [exact D|].
+      eapply ctor_vp_ok_upd; [| |exact Hc]; unfold ctor_maybe_before_end; destruct (lc_state c); reflexivity.
+  Qed.
+  Lemma finish_keeps c n : lc_value_pos (ctor_finish c n) = lc_value_pos c /\ lc_before_start (ctor_finish c n) = lc_before_start c.
+  Proof. unfold ctor_finish. destruct (lc_state c); split; reflexivity. Qed.
+  Lemma Vinv_generation_end h id h' : meet_generation_end C h id = Ok h' -> Vinv h -> Vinv h'.
+  Proof.
+    intros H I. apply meet_generation_end_spec in H. cbv zeta in H.
+    destruct H as (R & EP & f & f' & G & EF & Q1 & _ & _ & I1 & L1 & _).
+    eapply Vinv_put; eauto. destruct I as (_ & _ & F). destruct (F _ _ G) as (A & B & D).
+    split; [now rewrite I1|]. split; [|rewrite Q1; constructor].
+    rewrite L1. apply Forall_app. split; [exact B|]. unfold ctors. apply Forall_map.
+    eapply Forall_impl; [|exact D]. intros c [X Y]. destruct (finish_keeps c (nlen h)) as [K1 K2].
+    unfold entry_vp_ok, lore_of. cbn. rewrite K1, K2. apply andb_true_intro. split; [now apply N.ltb_lt|exact Y].
+  Qed.
+  Lemma Vinv_fold_end h id h' : meet_fold_end C h id = Ok h' -> Vinv h -> Vinv h'.
+  Proof.
+    intros H (V & P & F). apply meet_fold_end_spec in H. destruct H as (EP & EF & f & G & _ & R).
+    destruct (F _ _ G) as (A & B & _).
+    assert (T : text (rt h) (rt h')) by (rewrite R; now apply text_set).
+    split; [rewrite R; apply vp_ok_set; auto; intros lore X; inversion X; now subst|]. split.
+    - rewrite EP. eapply Forall_impl; [|exact P]. intros g. apply (proj2 T).
+    - intros i g Gg. rewrite EF in Gg. destruct (N.eq_dec i id) as [->|Ne].
+      + rewrite folds_get_del_same in Gg. discriminate.
+      + rewrite folds_get_del_other in Gg by exact Ne. eapply fold_vp_text; [exact T|]. eapply F; eauto.
+  Qed.
+
+  Theorem drive_chk_Vinv :
+    (forall d h h', drive_dt C ceqb true d h = Ok h' -> Vinv h -> Vinv h') /\
+    (forall ds h h', drive_dts C ceqb true ds h = Ok h' -> Vinv h -> Vinv h') /\
+    (forall gs id h h', drive_gens C ceqb true id gs h = Ok h' -> Vinv h -> Vinv h') /\
+    (forall b id h h', drive_body C ceqb true id b h = Ok h' -> Vinv h -> Vinv h') /\
+    (forall hl id h h', drive_hole C ceqb true id hl h = Ok h' -> Vinv h -> Vinv h').
+  Proof.
+    apply drive_mutind; intros; drive_unfold;
+      repeat match goal with
+             | H : bind _ _ = Ok _ |- _ => inv_bind H
+             | H : (if ?b then _ else _) = Ok _ |- _ => destruct b
+             | H : Ok _ = Ok _ |- _ => inversion H; subst; clear H
+             end;
+      repeat match goal with
+             | E : drive_call C ceqb _ _ = Ok _ |- _ => apply drive_call_leaf in E
+             | E : drive_ap C _ _ = Ok _ |- _ => apply drive_ap_leaf in E
+             | E : drive_canon C ceqb _ _ = Ok _ |- _ => apply drive_canon_leaf in E
+             end;
+      eauto 12 using Vinv_leafstep, Vinv_par_start, Vinv_par_left, Vinv_par_right, Vinv_fold_start, Vinv_iteration_start,
+        Vinv_iteration_end, Vinv_back_iterator, Vinv_generation_end, Vinv_fold_end.
+  Qed.
+
+  Lemma Vinv_init prev cur : Vinv (handler_from C prev cur).
+  Proof.
+    split; [|split; [constructor|intros id f G; discriminate]].
+    intros p lore x Hp. apply nth_N_some in Hp. change (rt (handler_from C prev cur)) with (@nil state) in Hp.
+    rewrite len_N_nil in Hp. lia.
+  Qed.
+
+  Theorem wf_drive_value_pos : C10_wf_drive_value_pos_stmt C ceqb.
+  Proof.
+    intros ds prev cur h H. unfold drive_chk, drive in *. split.
+    - now apply (proj1 (proj2 drive_chk_drive_all)).
+    - apply (proj1 (proj2 drive_chk_Vinv)) in H; [|apply Vinv_init]. exact (proj1 H).
+  Qed.
+End WfD.
+
+(* ---- generations: update_generation rewrites only the generation field of stream value entries ---- *)
+Section WfE.
+  Variable C : Type.
+  Variable ceqb : C -> C -> bool.
+  Notation state := (state C).
+  Notation trace := (list state).
+  Notation handler := (handler C).
+  Notation rt := (rt C).
+
+  (* the part of a state the forest looks at *)
+  Definition skel (s : state) : option (N * N) + option (list fold_sub_lore) :=
+    match s with SPar l r => inl (Some (l, r)) | SFold lo => inr (Some lo) | _ => inr None end.
+  Definition same_skel (t t' : trace) : Prop :=
+    forall i, option_map skel (nth_N t i) = option_map skel (nth_N t' i).
+
+  Lemma forest_same_skel t t' a b : same_skel t t' -> forest C t a b -> forest C t' a b.
+  Proof.
+    intros S F. induction F as [a | a b s Hn Hl H1 IH1 | a b l r Hn H1 IH1 H2 IH2 H3 IH3 | a b lore e Hn Hlo H1 IH1 H2 IH2].
+    - constructor.
+    - specialize (S a). rewrite Hn in S. destruct (nth_N t' a) as [s'|] eqn:E; [|discriminate].
+      econstructor 2; [exact E| |exact IH1]. simpl in S. inversion S as [S']. destruct s, s'; simpl in *; try discriminate; reflexivity.
+    - specialize (S a). rewrite Hn in S. destruct (nth_N t' a) as [s'|] eqn:E; [|discriminate].
+      simpl in S. inversion S as [S']. destruct s'; simpl in S'; try discriminate. inversion S'. subst.
+      econstructor 3; eauto.
+    - specialize (S a). rewrite Hn in S. destruct (nth_N t' a) as [s'|] eqn:E; [|discriminate].
+      simpl in S. inversion S as [S']. destruct s'; simpl in S'; try discriminate. inversion S'. subst.
+      econstructor 4; eauto.
+  Qed.
+
+  (* what one update does *)
+  Definition regen (s s' : state) : Prop :=
+    match s, s' with
+    | SAp _, SAp [_] => True
+    | SCall (Executed (VRStream c _)), SCall (Executed (VRStream c' _)) => c = c'
+    | _, _ => False
+    end.
+  Lemma update_generation_spec h p g h' :
+    update_generation C h p g = inl h' ->
+    exists s s', nth_N (rt h) p = Some s /\ regen s s' /\ rt h' = set_nth (rt h) (N.to_nat p) s' /\
+      state_no_stub C s' = negb (g =? generation_stub).
+  Proof.
+    unfold update_generation. fold (rt h). destruct (nth_N (rt h) p) as [s|] eqn:E; [|discriminate].
+    destruct s as [| [ | [ | c g0 | ] | ] | gens | | ]; try discriminate; intros H; inversion H; subst; clear H.
+    - exists (SCall (Executed (VRStream c g0))), (SCall (Executed (VRStream c g))). repeat split; auto.
+    - exists (SAp gens), (SAp [g]). repeat split; auto. simpl. now rewrite andb_true_r.
+  Qed.
+  Lemma regen_stream s s' : regen s s' -> is_stream_state C s = true /\ is_stream_state C s' = true /\ skel s = skel s'.
+  Proof.
+    destruct s as [| [ | [ | c g0 | ] | ] | gens | | ]; destruct s' as [| [ | [ | c' g1 | ] | ] | [|g1 [|]] | | ]; simpl; intros H;
+      try contradiction; auto.
+  Qed.
+
+  Lemma update_generation_keeps h p g h' :
+    update_generation C h p g = inl h' ->
+    same_skel (rt h) (rt h') /\ (forall q, is_stream_at C (rt h') q = is_stream_at C (rt h) q) /\
+    (forall q s, q <> p -> nth_N (rt h') q = Some s -> nth_N (rt h) q = Some s) /\
+    (forall s, nth_N (rt h') p = Some s -> state_no_stub C s = negb (g =? generation_stub)).
+  Proof.
+    intros H. apply update_generation_spec in H. destruct H as (s & s' & E & RG & R & NS).
+    apply regen_stream in RG. destruct RG as (S1 & S2 & SK).
+    pose proof (nth_N_some _ _ _ E) as L.
+    split; [|split; [|split]].
+    - intros i. rewrite R. destruct (N.eq_dec p i) as [->|Ne].
+      + rewrite nth_N_set_nth_same by exact L. rewrite E. simpl. now rewrite SK.
+      + now rewrite nth_N_set_nth_other.
+    - intros q. unfold is_stream_at. rewrite R. destruct (N.eq_dec p q) as [->|Ne].
+      + rewrite nth_N_set_nth_same by exact L. rewrite E. congruence.
+      + now rewrite nth_N_set_nth_other.
+    - intros q x Ne Hq. rewrite R, nth_N_set_nth_other in Hq by congruence. exact Hq.
+    - intros x Hp. rewrite R, nth_N_set_nth_same in Hp by exact L. inversion Hp. now subst.
+  Qed.
+
+  Lemma vp_ok_same t t' :
+    same_skel t t' -> (forall q, is_stream_at C t' q = is_stream_at C t q) -> vp_ok C t -> vp_ok C t'.
+  Proof.
+    intros S M V p lore x Hp Hx. specialize (S p). rewrite Hp in S. destruct (nth_N t p) as [s|] eqn:E; [|discriminate].
+    simpl in S. inversion S as [S']. destruct s; simpl in S'; try discriminate. inversion S'. subst.
+    destruct (V p lore x E Hx) as (b & rest & D & L & St). exists b, rest. split; [exact D|]. split; [exact L|]. now rewrite M.
+  Qed.
+
+  Definition good_at (t : trace) (p : N) : Prop := forall s, nth_N t p = Some s -> state_no_stub C s = true.
+
+  Lemma apply_generations_spec us : forall h h',
+    apply_generations C us h = Some h' ->
+    same_skel (rt h) (rt h') /\ (forall q, is_stream_at C (rt h') q = is_stream_at C (rt h) q) /\
+    ((forall p g, In (p, g) us -> g <> generation_stub) ->
+     forall p, In p (map fst us) \/ good_at (rt h) p -> good_at (rt h') p).
+  Proof.
+    induction us as [|[p0 g0] r IH]; intros h h' H.
+    - simpl in H. inversion H. subst. split; [intros i; reflexivity|]. split; [reflexivity|]. intros _ p [[]|G]. exact G.
+    - simpl in H. destruct (update_generation C h p0 g0) as [h1|] eqn:U; [|discriminate].
+      apply update_generation_keeps in U. destruct U as (S1 & M1 & O1 & N1).
+      apply IH in H. destruct H as (S2 & M2 & G2).
+      split; [intros i; now rewrite S1, S2|]. split; [intros q; now rewrite M2, M1|].
+      intros NS p Hp. apply G2; [intros q g Hin; apply (NS q g); now right|].
+      destruct (N.eq_dec p p0) as [->|Ne].
+      + right. intros s Hs. rewrite (N1 s Hs). apply negb_true_iff, N.eqb_neq. apply (NS p0 g0). now left.
+      + destruct Hp as [[Hp|Hp]|Hp]; [simpl in Hp; congruence|now left|].
+        right. intros s Hs. apply Hp. now apply O1.
+  Qed.
+
+  Theorem generations_ok : C10_generations_stmt C.
+  Proof.
+    intros h us h' H. change (result_trace C h) with (rt h). change (result_trace C h') with (rt h').
+    apply apply_generations_spec in H. destruct H as (S & M & G).
+    split; [unfold wf_struct; intros F|split; [now apply vp_ok_same|]].
+    - assert (L : len_N (rt h') = len_N (rt h)).
+      { (* same_skel forces the same length *)
+        destruct (N.lt_trichotomy (len_N (rt h')) (len_N (rt h))) as [Lt|[Eq|Gt]]; [|exact Eq|].
+        - exfalso. destruct (split_at_N (rt h) (len_N (rt h')) Lt) as (a & x & b & E & La).
+          specialize (S (len_N (rt h'))). rewrite E, <- La, nth_N_mid in S. rewrite La in S.
+          unfold nth_N in S at 1. unfold len_N in S at 1. rewrite N.ltb_irrefl in S. discriminate.
+        - exfalso. destruct (split_at_N (rt h') (len_N (rt h)) Gt) as (a & x & b & E & La).
+          specialize (S (len_N (rt h))). rewrite E, <- La, nth_N_mid in S. rewrite La in S.
+          unfold nth_N in S at 1. unfold len_N in S at 1. rewrite N.ltb_irrefl in S. discriminate. }
+      rewrite L. now apply forest_same_skel with (t := rt h).
+    - intros Cover NS s Hs. apply In_nth_N in Hs. destruct Hs as [p Hp].
+      destruct (is_stream_state C s) eqn:St.
+      + assert (SA : is_stream_at C (rt h) p = true) by (rewrite <- M; unfold is_stream_at; now rewrite Hp).
+        destruct (Cover p SA) as [g Hin]. apply (G NS p); [left; now apply (in_map fst) in Hin|exact Hp].
+      + destruct s as [| [ | [ | c g0 | ] | ] | gens | | ]; simpl in St; try discriminate; reflexivity.
+  Qed.
+
+  Theorem full : C10_full C ceqb.
+  Proof.
+    intros ds prev cur h us h' D A Cover NS.
+    destruct (wf_drive_value_pos C ceqb ds prev cur h D) as [D' V].
+    pose proof (wf_drive C ceqb ds prev cur h D') as W.
+    destruct (generations_ok h us h' A) as (G1 & G2 & G3).
+    split; [now apply G1|]. split; [now apply G2|now apply G3].
+  Qed.
+End WfE.
+
+(* ===================================================================== *)
+(* Source tie: the builder code of /repo as read by tools/genx_wf.py (coq/gen/Generated.v) is the code
+   model/Handler.v mirrors *)
+Open Scope string_scope.
+Definition ctor_state_of_name (s : string) : option ctor_state :=
+  if String.eqb s "BeforeStarted" then Some BeforeStarted
+  else if String.eqb s "BeforeCompleted" then Some BeforeCompleted
+  else if String.eqb s "AfterStarted" then Some AfterStarted
+  else if String.eqb s "AfterCompleted" then Some AfterCompleted else None.
+Definition ctor_state_name (s : ctor_state) : string :=
+  match s with BeforeStarted => "BeforeStarted" | BeforeCompleted => "BeforeCompleted"
+             | AfterStarted => "AfterStarted" | AfterCompleted => "AfterCompleted" end.
+Definition ctor_state_eqb (a b : ctor_state) : bool := String.eqb (ctor_state_name a) (ctor_state_name b).
+
+(* CtorState::next as the source has it *)
+Definition next_by_table (s : ctor_state) : option ctor_state :=
+  match find (fun p => String.eqb (fst p) (ctor_state_name s)) wf_ctor_next_table with
+  | Some (_, b) => ctor_state_of_name b
+  | None => None
+  end.
+Lemma ctor_next_agrees s : next_by_table s = Some (ctor_next s).
+Proof. destruct s; vm_compute; reflexivity. Qed.
+
+(* the three setters: which (tracker, field) each assigns, per the source *)
+Definition set_field (tracker field : string) (c : lore_ctor) (n : N) : option lore_ctor :=
+  let st := ctor_next (lc_state c) in
+  if String.eqb tracker "before_tracker" && String.eqb field "end_pos"
+  then Some (ctor_set c (lc_before_start c) n (lc_after_start c) (lc_after_end c) st)
+  else if String.eqb tracker "after_tracker" && String.eqb field "start_pos"
+  then Some (ctor_set c (lc_before_start c) (lc_before_end c) n (lc_after_end c) st)
+  else if String.eqb tracker "after_tracker" && String.eqb field "end_pos"
+  then Some (ctor_set c (lc_before_start c) (lc_before_end c) (lc_after_start c) n st)
+  else None.
+Definition setter_by_table (name : string) (c : lore_ctor) (n : N) : option lore_ctor :=
+  match find (fun p => String.eqb (fst (fst p)) name) wf_ctor_setters with
+  | Some (_, tr, fd) => set_field tr fd c n
+  | None => None
+  end.
+Lemma setters_agree c n :
+  setter_by_table "before_end" c n = Some (ctor_before_end c n) /\
+  setter_by_table "after_start" c n = Some (ctor_after_start c n) /\
+  setter_by_table "after_end" c n = Some (ctor_after_end c n).
+Proof. repeat split. Qed.
+
+(* SubTraceLoreCtor::finish as the source has it *)
+Fixpoint apply_setters (names : list string) (c : lore_ctor) (n : N) : option lore_ctor :=
+  match names with
+  | [] => Some c
+  | x :: r => match setter_by_table x c n with Some c1 => apply_setters r c1 n | None => None end
+  end.
+Definition finish_by_table (c : lore_ctor) (n : N) : option lore_ctor :=
+  match find (fun p => String.eqb (fst p) (ctor_state_name (lc_state c))) wf_ctor_finish_table with
+  | Some (_, names) => apply_setters names c n
+  | None => None
+  end.
+Lemma ctor_finish_agrees c n : finish_by_table c n = Some (ctor_finish c n).
+Proof. destruct c as [vp bs be a_s ae st]. destruct st; reflexivity. Qed.
+
+Definition str2_eqb (a b : string * string) : bool := String.eqb (fst a) (fst b) && String.eqb (snd a) (snd b).
+Definition str3_eqb (a b : string * string * string) : bool := str2_eqb (fst a) (fst b) && String.eqb (snd a) (snd b).
+(* the remaining decisive lines, compared with what model/Handler.v was written against *)
+Definition wf_source_pins : bool :=
+  str2_eqb wf_ctor_before_start ("before_tracker", "start_pos") &&        (* new_ctor: lc_before_start := next pos *)
+  str3_eqb wf_ctor_maybe_before_end ("BeforeStarted", "before_tracker", "end_pos") &&   (* ctor_maybe_before_end *)
+  list_eqb String.eqb wf_lore_descs ["before_tracker"; "after_tracker"] &&  (* ctor_into_lore: [before; after] *)
+  str2_eqb wf_tracker_len ("end_pos", "start_pos") &&                       (* len = end - start *)
+  list_eqb String.eqb wf_par_track_formula
+           ["saved_states_count"; "result_states_count"; "states_count"; "prev_states_count"] &&   (* par_track: n - saved *)
+  list_eqb str3_eqb wf_par_track_assigns
+           [("Left", "left_subgraph_size", "resulted_states_count"); ("Right", "right_subgraph_size", "resulted_states_count")] &&
+  str2_eqb wf_par_build ("left_subgraph_size", "right_subgraph_size") &&    (* SPar left right *)
+  String.eqb wf_par_from_keeper "result_states_count" &&
+  str2_eqb wf_inserter_insert ("position", "state") &&                      (* insert_state: result[position] := state *)
+  (let '(before_push, l, r) := wf_inserter_from_keeper in before_push && (l =? 0)%N && (r =? 0)%N) &&
+  (wf_subtrace_desc_count =? 2)%N.                                          (* entry_descs: exactly two descriptors *)
+Lemma wf_source_pins_ok : wf_source_pins = true.
+Proof. vm_compute. reflexivity. Qed.
+
